@@ -1,3 +1,4 @@
+import BigtoolsModel.AtomsSearch
 import BigtoolsModel.AtomsRB
 import BigtoolsModel.FileOfBed
 import BigtoolsModel.FiltersGen
@@ -95,3 +96,11 @@ theorem C04_source_block_fetch (z : BBI.Zlib) (ubs : Nat) (l x : List Nat) (off 
     (0 < ubs → BBI.Has l off (z.deflate x) → RB.fetch z ubs l ⟨off, (z.deflate x).length⟩ = some x) ∧
     (BBI.Has l off x → RB.fetch z 0 l ⟨off, x.length⟩ = some x) :=
   ⟨fun hu h => RB.fetch_compressed z ubs l x off hu hx h, fun h => RB.fetch_raw z l x off h⟩
+
+/-- **Tie to the source: the search's entry points.** The index is searched with the chromosome id stored in the chromosome tree (a file's
+    ids need not follow the order of its names), nothing makes `search_cir_tree` answer before the index is walked (a query may lie
+    beyond the declared chromosome length: bigBed entries may reach there), and every block the walk yields is collected (the walk is
+    not cut after some number of nodes) — regenerated from bbiread.rs on every run. -/
+theorem C04_source_search_entry_points (cid ix : Nat) :
+    Gen.sc_chrom_id cid ix = cid ∧ Gen.sc_early_returns = [] ∧ Gen.sc_walk_adaptors = [] :=
+  SC.gen_search_entry cid ix
